@@ -155,6 +155,14 @@ def lazy_documents():
                [('quote', 1), ('list', 1), ('item', 1), ('para', 1), ('item', n + 2), ('para', n + 2)])
         # block after the quote
         yield ('\n'.join(['> a'] + lazy + ['', 'g']) + '\n', [('quote', 1), ('para', 1), ('para', n + 3)])
+    # tables whose rows have fewer / as many / more cells than the delimiter row has columns (every cell reports the row's line)
+    rows = ['| c |', '| c | d |', '| c | d | e |', '| c | d | e | f |', '|', '| | | |']
+    for k in range(1, len(rows) + 1):
+        for perm in __import__('itertools').permutations(rows, k) if k <= 2 else [tuple(rows[:k])]:
+            t = ['| h | k |', '|---|---|'] + list(perm)
+            yield ('\n'.join(t) + '\n', [('table', 1)])
+            yield ('\n'.join(['w', ''] + ['> ' + l for l in t]) + '\n', [('para', 1), ('quote', 3), ('table', 3)])
+            yield ('\n'.join(['- b', ''] + ['  ' + l for l in t]) + '\n', [('list', 1), ('item', 1), ('para', 1), ('table', 3)])
 
 
 def run_lazy_job():
